@@ -112,6 +112,20 @@ class _T(ast.NodeTransformer):
             args=[ast.Constant('fstr'), ast.Constant('')] + parts, keywords=[]), node)
 
 
+module_state = []
+_state_ids = set()
+
+
+def reset_module_state():
+    """put every module-level dict / list / set of the pmutt modules back to its content right after import (in place)"""
+    for obj, snap in module_state:
+        if type(obj) is list:
+            obj[:] = snap
+        else:
+            obj.clear()
+            obj.update(snap)
+
+
 class _Loader(importlib.machinery.SourceFileLoader):
     def source_to_code(self, data, path, *, _optimize=-1):
         tree = ast.parse(data, filename=path)
@@ -151,6 +165,12 @@ class _Loader(importlib.machinery.SourceFileLoader):
             for k, v in list(g.items()):
                 if isinstance(v, _re.Pattern):
                     g[k] = symre._Compiled(v.pattern, v.flags & ~_re.UNICODE)
+        # module-level mutable containers (memo tables, registries): remembered as they are right after import, so that what one
+        # explored path stores in them cannot be met by the next path or by the concrete replay (reset_module_state)
+        for k, v in list(g.items()):
+            if type(v) in (dict, list, set) and not k.startswith('__') and id(v) not in _state_ids:
+                _state_ids.add(id(v))
+                module_state.append((v, type(v)(v)))
 
 
 class _Finder(importlib.abc.MetaPathFinder):
